@@ -142,3 +142,28 @@ REGISTRY.update({
         "note": _NOTE + "Ordinates below 1e-3 in magnitude and abscissa spacings below 1e-6 are not generated (underflow / overflow of y**(p+1) and slopes is outside the statement).",
     },
 })
+
+REGISTRY.update({
+    "C05": {
+        "level": "Generated pairs of connected graphs (1..8 vertices, all labelings, generated RNG seed and sampling-size parameter) are judged against the "
+                 "exact mGH distance computed by branch and bound over all maps in both directions on independently computed shortest-path metrics; one "
+                 "complete slice (all 44x44 pairs of connected labelled graphs on <= 4 vertices x 3 seeds, oracle cross-checked by brute force); validity "
+                 "predicates at 9..14 vertices; isomorphic pairs must get lower bound 0.",
+        "technique": "property-based testing (Hypothesis) against an exact branch-and-bound oracle; exhaustive enumeration of small graphs; validity predicates at size",
+        "note": _NOTE + "The NumPy RNG state is an input set by the harness (np.random.seed) immediately before each call.",
+    },
+    "C17": {
+        "level": "The same generated graphs are passed in seven container/sparsity formats x {upper-triangular, symmetric}, relabelled, as mixed-format "
+                 "collections and with 2..3 connected components; results must bracket the exact distance (of a largest component when disconnected, with "
+                 "a warning and no exception), lower bounds must coincide across representations, collection matrices must be symmetric with zero diagonal.",
+        "technique": "property-based testing (Hypothesis): differential across representations + exact branch-and-bound oracle",
+        "note": _NOTE + "Integer 0/1 adjacency entries only; ties between largest components accept any of them.",
+    },
+    "C18": {
+        "level": "Model-based histories of fit / transform / fit_transform calls on data of different extent for both estimators, against a model that "
+                 "remembers only user-fixed parameters and the most recent fit: learned state after each fit, outputs of each transform (exactly, on the "
+                 "grid the model predicts), repeatability, state preservation, element-wise collections, fit_transform == fit;transform.",
+        "technique": "model-based / stateful property testing (generated call histories with a reference model)",
+        "note": _NOTE + "User-fixed parameters are those given to the constructor; set_params between fits is not generated.",
+    },
+})
